@@ -305,9 +305,11 @@ class Emulsion(list):
                 this array are modified, it will be reflected in the droplets.
         """
         data = self.data  # create an array with all the droplet data
-        # link back to droplets
+        # link back to droplets. We use a record view, so the items support attribute
+        # access, which the droplet classes (e.g., when merging droplets) rely on
+        records = data.view(np.recarray)
         for i, d in enumerate(self):
-            d.data = data[i]
+            d.data = records[i]
         return data
 
     @classmethod
